@@ -11,11 +11,16 @@ Local Open Scope Z_scope.
 Definition tx (s : string) : text := List.map (fun a => Z.of_N (N_of_ascii a)) (list_ascii_of_string s).
 
 (* ---- qualified names ------------------------------------------------------------------
-   namespace numbers: 0 none, 1 TTML, 2 ttp, 3 tts, 4 ittp, 5 itts, 6 ebutts, 7 xml;
-   any other namespace URI is numbered from 100 by the harness *)
+   namespace numbers: 0 none, 1 TTML, 2 ttp, 3 tts, 4 ittp, 5 itts, 6 ebutts, 7 xml, 8 ttm (TTML metadata);
+   any other namespace URI is numbered from 100 by the harness.
+   ElementTree presents a comment or a processing instruction (when the parser keeps them: TreeBuilder(insert_comments=True,
+   insert_pis=True); the default parser drops them and joins the text around them) as an element whose tag is not a string
+   (the function ET.Comment / ET.ProcessingInstruction), without attributes or children, whose text is the comment and which has
+   a tail like any element.  Such a tag is the pseudo-name (98, []) resp. (99, []): it is equal to no qualified name. *)
 Definition qname := (Z * text)%type.
 Definition NS_NONE := 0.  Definition NS_TT := 1.  Definition NS_TTP := 2.  Definition NS_TTS := 3.
 Definition NS_ITTP := 4.  Definition NS_ITTS := 5.  Definition NS_EBUTTS := 6.  Definition NS_XML := 7.
+Definition NS_TTM := 8.   Definition NS_COMMENT := 98.  Definition NS_PI := 99.
 
 Definition qname_eqb (a b : qname) : bool := (fst a =? fst b) && text_eqb (snd a) (snd b).
 
@@ -49,6 +54,8 @@ Fixpoint remove_attr (a : list (qname * text)) (q : qname) : list (qname * text)
   | (k, v) :: a' => if qname_eqb k q then remove_attr a' q else (k, v) :: remove_attr a' q
   end.
 
+Definition set_tail (x : xml) (t : option text) : xml := match x with X tag a txt _ cs => X tag a txt t cs end.
+
 (* induction principle with the hypothesis for every child *)
 Section XmlInd.
   Variable P : xml -> Prop.
@@ -76,6 +83,13 @@ Definition T_br := Eval vm_compute in q_tt "br".            Definition T_set := 
 Definition T_region := Eval vm_compute in q_tt "region".    Definition T_style := Eval vm_compute in q_tt "style".
 Definition T_layout := Eval vm_compute in q_tt "layout".    Definition T_styling := Eval vm_compute in q_tt "styling".
 Definition T_initial := Eval vm_compute in q_tt "initial".
+(* children that are no content elements: TTML2 Metadata.class (tt:metadata and the ttm: vocabulary), comments, processing instructions *)
+Definition q_ttm (s : string) : qname := (NS_TTM, tx s).
+Definition T_metadata := Eval vm_compute in q_tt "metadata".
+Definition T_ttm_title := Eval vm_compute in q_ttm "title".        Definition T_ttm_desc := Eval vm_compute in q_ttm "desc".
+Definition T_ttm_copyright := Eval vm_compute in q_ttm "copyright".  Definition T_ttm_agent := Eval vm_compute in q_ttm "agent".
+Definition T_ttm_name := Eval vm_compute in q_ttm "name".          Definition T_ttm_actor := Eval vm_compute in q_ttm "actor".
+Definition T_comment : qname := (NS_COMMENT, []).                  Definition T_pi : qname := (NS_PI, []).
 
 Definition A_begin := Eval vm_compute in q_none "begin".    Definition A_end := Eval vm_compute in q_none "end".
 Definition A_dur := Eval vm_compute in q_none "dur".        Definition A_region := Eval vm_compute in q_none "region".
